@@ -341,6 +341,8 @@ int verif_case(const uint8_t *tape, size_t tlen, Info *info) {
     // one exchange: the libcoap client sends M (fresh token, next sequence number), the datagram is checked against the reference, and the
     // reference-driven server answers with R protected for exactly this request - untouched (op == nullptr), damaged by `op`, or protected
     // under a context that differs in one parameter (foreign != nullptr).  Returns false on a violation.
+    bool reuse_token = false, silent = false;
+    Bytes last_token;
     auto exchange = [&](const Op *op, const refo::Ctx *foreign, size_t *handler_calls) -> bool {
       rx.clear();
       cs.cli_seen.clear();
@@ -348,6 +350,8 @@ int verif_case(const uint8_t *tape, size_t tlen, Info *info) {
       w.trace.clear();
       Bytes token = {(uint8_t)(tok_no >> 8), (uint8_t)tok_no, 0x7c};
       token.resize(tok_no == 0 ? t.range(0, 8) : 3, 0x11);
+      if (reuse_token) token = last_token;   // the application re-uses the token of an exchange that never got its response
+      last_token = token;
       tok_no++;
       coap_pdu_t *pdu = coap_new_pdu(con ? COAP_MESSAGE_CON : COAP_MESSAGE_NON, (coap_pdu_code_t)M.code, session);
       coap_add_token(pdu, token.size(), token.empty() ? (const uint8_t *)"" : token.data());
@@ -369,6 +373,12 @@ int verif_case(const uint8_t *tape, size_t tlen, Info *info) {
       Bytes ct;
       refo::ccm_encrypt(cli.sender_key, refo::nonce(cli, cli.sender_id, u.opt.piv), refo::aad(cli, cli.sender_id, u.opt.piv), refo::plaintext(M.code, u.inner, M.payload), &ct);
       if (ct != outer.payload) { info->fail("ciphertext differs from the reference's encryption of the same plaintext"); return false; }
+      if (silent) {   // the server acknowledges but never answers
+        if (con) { w.peer_send(S, rx[0].src, simh::ack(outer.mid)); w.run(w.now, 2000); }
+        *handler_calls = cs.cli_seen.size();
+        session->doing_first = 0;
+        return true;
+      }
       ref::Msg pr = refo::protect_response(foreign ? *foreign : srv, R, u.opt.kid, u.opt.piv, own >= 0 ? own + (int64_t)tok_no : -1);
       pr.token = token;
       if (con && !observe) { pr.type = 2; pr.mid = outer.mid; } else { pr.type = 1; pr.mid = rmid++; if (con) { w.peer_send(S, rx[0].src, simh::ack(outer.mid)); w.run(w.now, 2000); } }
@@ -388,6 +398,18 @@ int verif_case(const uint8_t *tape, size_t tlen, Info *info) {
     {
       std::string why;
       if (!same_message(cs.cli_seen[0], R, &why, true)) FAIL("the client's handler does not see the response the reference protected: %s", why.c_str());
+    }
+    // a request that is never answered, then the same token again for a new request: protected like any other
+    if (seq <= (1ull << 40) - 50000 && t.chance(128)) {
+      silent = true;
+      if (!exchange(nullptr, nullptr, &calls)) { verdict = VIOLATION; goto teardown; }
+      silent = false;
+      reuse_token = true;
+      bool ok = exchange(nullptr, nullptr, &calls);
+      reuse_token = false;
+      if (!ok) { verdict = VIOLATION; goto teardown; }
+      if (calls != 1) FAIL("a request re-using the token of an unanswered request: the genuine response was delivered %zu times", calls);
+      info->label("token-reuse-after-unanswered-request");
     }
     // tamper sweep: one fresh exchange per damaged response (not when the sender sequence numbers are about to run out)
     if (seq > (1ull << 40) - 50000) { info->label("top-of-sequence-space"); goto teardown; }
